@@ -1,6 +1,7 @@
 //! Tiny valid datasets, derived from the case's seed (`SplitMix`), well conditioned so that every
 //! estimator trains on them in well under a millisecond-to-millisecond range.
 
+use linfa::dataset::Records;
 use ndarray::{Array1, Array2};
 use vengine::gen::SplitMix;
 
@@ -67,4 +68,45 @@ pub fn empty_records(x: &Array2<f64>) -> Array2<f64> {
 }
 pub fn empty_ds<T: EmptyLike>(ds: &linfa::DatasetBase<Array2<f64>, T>) -> linfa::DatasetBase<Array2<f64>, T> {
     linfa::DatasetBase::new(empty_records(ds.records()), ds.targets().empty_like())
+}
+
+// ---- decorated datasets: sample weights, feature names, two target columns
+
+pub fn weights(n: usize, seed: u64) -> ndarray::Array1<f32> {
+    ndarray::Array1::from_shape_fn(n, |i| 0.5 + ((i * 7 + seed as usize) % 5) as f32 * 0.25)
+}
+pub fn names(p: usize) -> Vec<String> {
+    (0..p).map(|j| format!("feature_{j}")).collect()
+}
+pub fn two_targets(n: usize) -> Array2<f64> {
+    Array2::from_shape_fn((n, 2), |(i, c)| (i * 3 + c) as f64)
+}
+/// on odd seeds the dataset carries sample weights and feature names
+pub fn decorate<T>(ds: linfa::DatasetBase<Array2<f64>, T>, seed: u64) -> linfa::DatasetBase<Array2<f64>, T> {
+    if seed % 2 == 1 {
+        let (n, p) = ds.records().dim();
+        ds.with_weights(weights(n, seed)).with_feature_names(names(p))
+    } else {
+        ds
+    }
+}
+/// always weighted and named (the dataset forms of `transform` hand these parts through)
+pub fn full<R: linfa::dataset::Records, T>(ds: linfa::DatasetBase<R, T>, seed: u64) -> linfa::DatasetBase<R, T> {
+    let (n, p) = (ds.nsamples(), ds.nfeatures());
+    let ds = ds.with_feature_names(names(p));
+    if seed % 4 == 0 {
+        ds
+    } else {
+        ds.with_weights(weights(n, seed))
+    }
+}
+/// the pass-through parts of a dataset: (samples, features), targets, weights, feature names
+pub type Parts = ((usize, usize), String, Option<Vec<f32>>, Vec<String>);
+pub fn parts<R: linfa::dataset::Records, T: std::fmt::Debug>(ds: &linfa::DatasetBase<R, T>) -> Parts {
+    (
+        (ds.nsamples(), ds.nfeatures()),
+        format!("{:?}", ds.targets()),
+        ds.weights().map(|w| w.to_vec()),
+        ds.feature_names().to_vec(),
+    )
 }
